@@ -249,10 +249,15 @@ impl Channel {
 
         chan.busy = false;
         chan.transmission_finish_time = SimTime::ZERO;
+        drop(chan);
 
-        if let Some((msg, next_gate)) = chan.buffer.dequeue() {
-            drop(chan);
-            self.send_message(msg, next_gate, sink);
+        // A message with a transmission time of zero does not occupy the channel,
+        // so keep dequeuing until the channel is busy again or the queue is empty.
+        while !self.is_busy() {
+            let Some((msg, next_gate)) = self.inner.write().unwrap().buffer.dequeue() else {
+                break;
+            };
+            self.clone().send_message(msg, next_gate, sink);
         }
     }
 }
